@@ -143,8 +143,8 @@ __CPROVER_ensures(__CPROVER_return_value ==> (g->next == __CPROVER_old(g->next) 
 __CPROVER_ensures(!__CPROVER_return_value ==> g->next == __CPROVER_old(g->next));
 #undef NITRO_UNIT_GLOBALS
 #undef NITRO_HAVOC_UNIT
-#define NITRO_UNIT_GLOBALS NITRO_OPT_GLOBALS size_t g_oi; struct ostr g_env_value; size_t g_env_name, g_pieces_total, g_piece_w_id;
-#define NITRO_HAVOC_UNIT NITRO_OPT_HAVOC g_oi = nondet_size_t(); g_env_value.id = nondet_size_t(); g_env_value.len = nondet_size_t(); g_env_name = nondet_size_t(); g_pieces_total = nondet_size_t(); g_piece_w_id = nondet_size_t();
+#define NITRO_UNIT_GLOBALS NITRO_OPT_GLOBALS size_t g_oi, g_pn; struct pstep g_step; struct ostr g_env_value; size_t g_env_name, g_pieces_total, g_piece_w_id;
+#define NITRO_HAVOC_UNIT NITRO_OPT_HAVOC g_oi = nondet_size_t(); g_pn = nondet_size_t(); { struct pstep nitro_sp; g_step = nitro_sp; } g_env_value.id = nondet_size_t(); g_env_value.len = nondet_size_t(); g_env_name = nondet_size_t(); g_pieces_total = nondet_size_t(); g_piece_w_id = nondet_size_t();
 
 #define BASE_WF_V(b) (LETTERS_WF && (b).short_.len <= 1 && ((b).short_.len == 1 ==> LETTER_SLOT((b).short_.b0) < NITRO_NL))   /* short name: one character, and one of the table letters */
 /* how often the letter of option b occurs in token a */
@@ -330,32 +330,43 @@ static inline size_t ui_short_total(const struct user_input *u) { struct omset l
 #define T_BUNDLE(a) (T_SHORT(a) && T_NLETTERS(a) > 1)
 extern size_t g_oi;   /* witness index of a declared option / multi-option / toggle */
 
+/* frames: parsing writes the STATE of the declared entities only (value, count, dirty flag), never a declaration (name, letter,
+ * environment binding, default, flags) - the frame condition is what carries "the declaration is the same for every token" */
+#define OPT_STATE(o) (o).value_has, (o).value_, (o).b.dirty_
+#define MOPT_STATE(o) (o).value_, (o).b.dirty_
+#define TOG_STATE(t) (t).given_, (t).b.dirty_
+#define PARSER_STATE OPT_STATE(self->opts[0]), OPT_STATE(self->opts[1]), MOPT_STATE(self->mopts[0]), MOPT_STATE(self->mopts[1]), TOG_STATE(self->toggles[0]), TOG_STATE(self->toggles[1])
 /* ---- try_parse_as_option (two instantiations) ----
  * the token *it either names none of the given options (false, nothing changes), or names one: then a bundle is rejected,
  * the value is the text after '=' or else the NEXT token, which must exist and be a value token and is consumed. */
-/* the harness allocates typed objects (an untyped is_fresh block of several hundred bytes made the encoding explode) */
-#define TPO_TOKENS_PRE(fn) (__CPROVER_rw_ok(it_ref, sizeof(*it_ref)) && __CPROVER_same_object(*it_ref, end) && *it_ref < end && \
-   __CPROVER_r_ok(*it_ref, sizeof(struct user_input)) && (*it_ref + 1 == end || __CPROVER_r_ok(*it_ref + 1, sizeof(struct user_input))) && \
-   UI_WF(*it_ref) && (*it_ref + 1 != end ==> UI_WF(*it_ref + 1)) && (*it_ref)->arg_.len < (1 << 20))
+#ifndef NITRO_NARGS
+#define NITRO_NARGS 3      /* argument vectors of up to NITRO_NARGS tokens (bound; token length is unbounded) */
+#endif
+struct oargs { size_t n; struct user_input a[NITRO_NARGS]; };              /* std::vector<user_input> */
+/* iterators are positions in the vector (see unit.py, rule D3.iterator-*); the harness allocates typed objects */
+/* the position is fixed to 0: the code under contract uses the iterator only relatively (it, it + 1, end), assumption A-shift in DESIGN.md */
+#define TPO_TOKENS_PRE(fn) (__CPROVER_rw_ok(it_ref, sizeof(*it_ref)) && __CPROVER_r_ok(args, sizeof(*args)) && args->n <= NITRO_NARGS && *it_ref == 0 && *it_ref < args->n && \
+   ui_wf_v(args->a[*it_ref]) && (*it_ref + 1 != args->n ==> ui_wf_v(args->a[*it_ref + 1])) && args->a[*it_ref].arg_.len < (1 << 20))
 #define TPO_OPTS_PRE(fn, T) (n_options <= NITRO_K && __CPROVER_rw_ok(options, NITRO_K * sizeof(T)) && \
    (n_options > 0 ==> BASE_WF_V(options[0].b)) && (n_options > 1 ==> BASE_WF_V(options[1].b)))
 #define TOK0 (__CPROVER_old(*it_ref))
-#define TOK (&TOK0->arg_)
-#define NXT (&(TOK0 + 1)->arg_)
+#define TOK (&args->a[TOK0].arg_)
+#define NXT (&args->a[TOK0 + 1].arg_)
 #define TPO_M0 (n_options > 0 && M_BASE(&options[0].b, TOK))
 #define TPO_M1 (n_options > 1 && !TPO_M0 && M_BASE(&options[1].b, TOK))
 #define TPO_MATCH (TPO_M0 || TPO_M1)
-#define TPO_NEXT_OK (TOK0 + 1 != end && T_VALUE(NXT))
+#define TPO_NEXT_OK (TOK0 + 1 != args->n && T_VALUE(NXT))
 #define TPO_VALUE_ID (T_HAS_VALUE(TOK) ? VALUE_ID_OF(TOK) : NXT->id)
 #define TPO_CAN (!T_BUNDLE(TOK) && (T_HAS_VALUE(TOK) || TPO_NEXT_OK))
-#define TPO_ADVANCE (*it_ref == TOK0 + (T_HAS_VALUE(TOK) ? 0 : 1))
+#define TPO_ADVANCE 1   /* the position of the iterator is given by the unconditional clause iterator_advances_over_a_consumed_value_only */
 #define OPT_SAME(j) (options[j].value_has == __CPROVER_old(options[j].value_has) && options[j].value_.id == __CPROVER_old(options[j].value_.id) && options[j].b.dirty_ == __CPROVER_old(options[j].b.dirty_))
 #define OPT_SET(j) (options[j].value_has && options[j].b.dirty_ && options[j].value_.id == TPO_VALUE_ID)
-nbool tpo_option(struct ooption *options, size_t n_options, const struct user_input **it_ref, const struct user_input *end)
+nbool tpo_option(struct ooption *options, size_t n_options, size_t *it_ref, const struct oargs *args)
 __CPROVER_requires(nitro_exc == 0 && TPO_OPTS_PRE(tpo_option, struct ooption) && TPO_TOKENS_PRE(tpo_option))
-__CPROVER_assigns(nitro_exc, *it_ref, g_at_next, g_at_hits, g_at_other, __CPROVER_object_whole(options))
+__CPROVER_assigns(nitro_exc, *it_ref, g_at_next, g_at_hits, g_at_other, OPT_STATE(options[0]), OPT_STATE(options[1]))
 __CPROVER_ensures(nitro_exc == 0 || nitro_exc == EXC_PARSING_ERROR)
-__CPROVER_ensures(!TPO_MATCH ==> (nitro_exc == 0 && !__CPROVER_return_value && *it_ref == TOK0))                           /*@ unknown_name_is_not_consumed */
+__CPROVER_ensures(*it_ref == TOK0 + ((nitro_exc == 0 && __CPROVER_return_value && !T_HAS_VALUE(TOK)) ? 1 : 0))   /*@ iterator_advances_over_a_consumed_value_only */
+__CPROVER_ensures(!TPO_MATCH ==> (nitro_exc == 0 && !__CPROVER_return_value))                                             /*@ unknown_name_is_not_consumed */
 __CPROVER_ensures((TPO_MATCH && T_BUNDLE(TOK)) ==> nitro_exc != 0)                                                        /*@ option_letter_inside_a_bundle_is_rejected */
 __CPROVER_ensures((TPO_MATCH && !T_BUNDLE(TOK) && !T_HAS_VALUE(TOK) && !TPO_NEXT_OK) ==> nitro_exc != 0)                  /*@ value_missing_is_rejected */
 __CPROVER_ensures((TPO_CAN && ((TPO_M0 && __CPROVER_old(options[0].value_has)) || (TPO_M1 && __CPROVER_old(options[1].value_has)))) ==> nitro_exc != 0)   /*@ single_valued_option_given_twice_is_rejected */
@@ -368,12 +379,13 @@ __CPROVER_ensures(nitro_exc == 0 ==> (__CPROVER_return_value == TPO_MATCH));
 #define MOPT_SAME(j) (options[j].value_.count == __CPROVER_old(options[j].value_.count) && options[j].value_.w_id == __CPROVER_old(options[j].value_.w_id) && options[j].b.dirty_ == __CPROVER_old(options[j].b.dirty_))
 #define MOPT_PUSHED(j) (options[j].b.dirty_ && options[j].value_.count == __CPROVER_old(options[j].value_.count) + 1 && \
       (__CPROVER_old(options[j].value_.count) == g_w ==> options[j].value_.w_id == TPO_VALUE_ID) && (__CPROVER_old(options[j].value_.count) != g_w ==> options[j].value_.w_id == __CPROVER_old(options[j].value_.w_id)))
-nbool tpo_multi(struct omulti *options, size_t n_options, const struct user_input **it_ref, const struct user_input *end)
+nbool tpo_multi(struct omulti *options, size_t n_options, size_t *it_ref, const struct oargs *args)
 __CPROVER_requires(nitro_exc == 0 && TPO_OPTS_PRE(tpo_multi, struct omulti) && TPO_TOKENS_PRE(tpo_multi))
 __CPROVER_requires((n_options > 0 ==> options[0].value_.count < OSTR_MAXLEN) && (n_options > 1 ==> options[1].value_.count < OSTR_MAXLEN))
-__CPROVER_assigns(nitro_exc, *it_ref, g_at_next, g_at_hits, g_at_other, __CPROVER_object_whole(options))
+__CPROVER_assigns(nitro_exc, *it_ref, g_at_next, g_at_hits, g_at_other, MOPT_STATE(options[0]), MOPT_STATE(options[1]))
 __CPROVER_ensures(nitro_exc == 0 || nitro_exc == EXC_PARSING_ERROR)
-__CPROVER_ensures(!TPO_MATCH ==> (nitro_exc == 0 && !__CPROVER_return_value && *it_ref == TOK0))                           /*@ unknown_name_is_not_consumed */
+__CPROVER_ensures(*it_ref == TOK0 + ((nitro_exc == 0 && __CPROVER_return_value && !T_HAS_VALUE(TOK)) ? 1 : 0))   /*@ iterator_advances_over_a_consumed_value_only */
+__CPROVER_ensures(!TPO_MATCH ==> (nitro_exc == 0 && !__CPROVER_return_value))                                             /*@ unknown_name_is_not_consumed */
 __CPROVER_ensures((TPO_MATCH && T_BUNDLE(TOK)) ==> nitro_exc != 0)                                                        /*@ option_letter_inside_a_bundle_is_rejected */
 __CPROVER_ensures((TPO_MATCH && !T_BUNDLE(TOK) && !T_HAS_VALUE(TOK) && !TPO_NEXT_OK) ==> nitro_exc != 0)                  /*@ value_missing_is_rejected */
 __CPROVER_ensures((TPO_CAN && TPO_M0) ==> (nitro_exc == 0 && __CPROVER_return_value && MOPT_PUSHED(0) && TPO_ADVANCE))      /*@ value_appended_in_command_line_order */
@@ -381,6 +393,19 @@ __CPROVER_ensures((TPO_CAN && TPO_M1) ==> (nitro_exc == 0 && __CPROVER_return_va
 __CPROVER_ensures((n_options > 0 && !TPO_M0) ==> MOPT_SAME(0))                                                            /*@ other_options_untouched */
 __CPROVER_ensures((n_options > 1 && !TPO_M1) ==> MOPT_SAME(1))
 __CPROVER_ensures(nitro_exc == 0 ==> (__CPROVER_return_value == TPO_MATCH));
+
+/* second contracts of the same two functions for the call sites where the token names none of the options: nothing but the scratch
+ * state of matching is written - in particular the iterator stays where it is.  Enforced against the same bodies (jobs tpo_*~nomatch). */
+#define TPO_PRE_TOK (&args->a[*it_ref].arg_)
+#define TPO_PRE_MATCH ((n_options > 0 && M_BASE(&options[0].b, TPO_PRE_TOK)) || (n_options > 1 && M_BASE(&options[1].b, TPO_PRE_TOK)))
+nbool tpo_option_nomatch(struct ooption *options, size_t n_options, size_t *it_ref, const struct oargs *args)
+__CPROVER_requires(nitro_exc == 0 && TPO_OPTS_PRE(tpo_option, struct ooption) && TPO_TOKENS_PRE(tpo_option) && !TPO_PRE_MATCH)
+__CPROVER_assigns(nitro_exc, g_at_next, g_at_hits, g_at_other)
+__CPROVER_ensures(nitro_exc == 0 && !__CPROVER_return_value);                                                             /*@ unknown_name_is_not_consumed_and_nothing_changes */
+nbool tpo_multi_nomatch(struct omulti *options, size_t n_options, size_t *it_ref, const struct oargs *args)
+__CPROVER_requires(nitro_exc == 0 && TPO_OPTS_PRE(tpo_multi, struct omulti) && TPO_TOKENS_PRE(tpo_multi) && !TPO_PRE_MATCH)
+__CPROVER_assigns(nitro_exc, g_at_next, g_at_hits, g_at_other)
+__CPROVER_ensures(nitro_exc == 0 && !__CPROVER_return_value);                                                             /*@ unknown_name_is_not_consumed_and_nothing_changes */
 
 /* ---- try_parse_as_toggle ---- */
 #define TG(k) (&self->toggles[k])
@@ -397,7 +422,7 @@ __CPROVER_ensures(nitro_exc == 0 ==> (__CPROVER_return_value == TPO_MATCH));
 nbool try_parse_as_toggle(struct oparser *self, const struct user_input *in)
 __CPROVER_requires(nitro_exc == 0 && O_OBJ_OR_OK(try_parse_as_toggle, self) && O_OBJ_OR_ROK(try_parse_as_toggle, in) && UI_WF(in) && in->arg_.len < (1 << 20))
 __CPROVER_requires(self->n_toggles <= NITRO_K && TG_RANGE(0) && TG_RANGE(1) && TOGGLES_DISTINCT && g_oi < NITRO_K)
-__CPROVER_assigns(nitro_exc, g_at_next, g_at_hits, g_at_other, self->toggles)
+__CPROVER_assigns(nitro_exc, g_at_next, g_at_hits, g_at_other, TOG_STATE(self->toggles[0]), TOG_STATE(self->toggles[1]))
 __CPROVER_ensures(nitro_exc == 0 || nitro_exc == EXC_PARSING_ERROR)
 __CPROVER_ensures((!TGM(0) && !TGM(1)) ==> (nitro_exc == 0 && !__CPROVER_return_value))                                        /*@ token_that_is_no_toggle_is_not_consumed */
 __CPROVER_ensures(((TGM(0) || TGM(1)) && T_HAS_VALUE(IN)) ==> nitro_exc != 0)                                                 /*@ value_on_a_toggle_is_rejected */
@@ -410,10 +435,14 @@ __CPROVER_ensures((nitro_exc == 0 && __CPROVER_return_value && T_SHORT(IN)) ==> 
 __CPROVER_ensures((self->n_toggles > 0 && !TGM(0)) ==> TG_SAME(0))                                                           /*@ other_toggles_untouched */
 __CPROVER_ensures((self->n_toggles > 1 && !TGM(1)) ==> TG_SAME(1));
 /* ---- prepare / validate / consistency ---- */
+#define DECL_KEPT(arr, k) (self->arr[k].b.name_.id == __CPROVER_old(self->arr[k].b.name_.id) && self->arr[k].b.short_.len == __CPROVER_old(self->arr[k].b.short_.len) && self->arr[k].b.short_.b0 == __CPROVER_old(self->arr[k].b.short_.b0) && \
+                           self->arr[k].b.env_.len == __CPROVER_old(self->arr[k].b.env_.len) && self->arr[k].b.env_.id == __CPROVER_old(self->arr[k].b.env_.id))
+#define DECLS_KEPT ((self->n_opts <= g_oi || (DECL_KEPT(opts, g_oi) && (self->opts[g_oi].default_has != 0) == (__CPROVER_old(self->opts[g_oi].default_has) != 0) && (self->opts[g_oi].is_optional_ != 0) == (__CPROVER_old(self->opts[g_oi].is_optional_) != 0))) && \
+                    (self->n_mopts <= g_oi || DECL_KEPT(mopts, g_oi)) && (self->n_toggles <= g_oi || (DECL_KEPT(toggles, g_oi) && (self->toggles[g_oi].reversable_ != 0) == (__CPROVER_old(self->toggles[g_oi].reversable_) != 0))))
 #define PARSER_PRE(fn) (nitro_exc == 0 && O_OBJ_OR_OK(fn, self) && self->n_opts <= NITRO_K && self->n_mopts <= NITRO_K && self->n_toggles <= NITRO_K && g_oi < NITRO_K)
 void parser_prepare_options(struct oparser *self)
 __CPROVER_requires(PARSER_PRE(parser_prepare_options))
-__CPROVER_assigns(self->opts, self->mopts, self->toggles)
+__CPROVER_assigns(PARSER_STATE)
 __CPROVER_ensures(nitro_exc == 0)
 __CPROVER_ensures(g_oi < self->n_opts ==> (!self->opts[g_oi].value_has && !self->opts[g_oi].b.dirty_))                                 /*@ every_option_forgets_the_earlier_parse */
 __CPROVER_ensures(g_oi < self->n_mopts ==> (self->mopts[g_oi].value_.count == 0 && !self->mopts[g_oi].b.dirty_))                      /*@ every_multi_option_forgets_the_earlier_parse */
@@ -446,7 +475,7 @@ __CPROVER_ensures(g_oi < self->n_toggles ==> (self->toggles[g_oi].given_ == 0 &&
     ((!T_OLD(k, b.dirty_) && !TOG_FROM_ENV(k)) ==> (self->toggles[k].given_ == self->toggles[k].default_ && !self->toggles[k].b.dirty_))))
 void parser_validate_options(struct oparser *self)
 __CPROVER_requires(PARSER_PRE(parser_validate_options) && OPT_CHECK_PRE(0) && OPT_CHECK_PRE(1) && MOPT_CHECK_PRE(0) && MOPT_CHECK_PRE(1) && g_pieces_total <= OSTR_MAXLEN)
-__CPROVER_assigns(self->opts, self->mopts, self->toggles, nitro_exc, g_env_name)
+__CPROVER_assigns(PARSER_STATE, nitro_exc, g_env_name)
 __CPROVER_ensures(nitro_exc == 0 || nitro_exc == EXC_PARSING_ERROR)                                                       /*@ only_the_user_input_error */
 __CPROVER_ensures((nitro_exc != 0) == (OPT_RAISES(0) || OPT_RAISES(1) || MOPT_RAISES(0) || MOPT_RAISES(1) || TOG_RAISES(0) || TOG_RAISES(1)))   /*@ fails_iff_a_required_option_has_no_source_or_an_environment_word_is_unparsable */
 __CPROVER_ensures(nitro_exc == 0 ==> (OPT_CHECKED(0) && OPT_CHECKED(1)))                                                  /*@ options_ranked_command_line_environment_default */
@@ -484,5 +513,362 @@ void parser_accept_positionals(struct oparser *self, size_t amount)
 __CPROVER_requires(nitro_exc == 0 && O_OBJ(self))
 __CPROVER_assigns(self->allowed_positionals_)
 __CPROVER_ensures(self->allowed_positionals_ == amount);
+
+/* ======================= parse ======================= */
+extern size_t g_pn;                                                         /* witness option name for provided() */
+struct oprovided { nbool w_in; };                                           /* std::set<std::string> provided: membership of the witness name */
+static inline void oprovided_init(struct oprovided *s) { s->w_in = 0; }
+static inline void oprovided_insert(struct oprovided *s, const struct ostr *name) { if (name->id == g_pn) s->w_in = 1; }
+struct oarguments { struct oparser *parser_; struct ovec positionals_; struct oprovided provided_; };
+
+/* ---- the reference semantics of ONE command line token (transcribed from properties C01-C04, C11, C12), by value ----
+ * parse() = prologue; for each token: step; epilogue.  The state carried from token to token: */
+enum { CLS_NONE = 0, CLS_POSITIONAL = 1, CLS_DOUBLE_DASH = 2, CLS_OPTION = 3, CLS_TOGGLE = 5 };
+enum { STEP_RAISED = 0, STEP_NEXT = 1 };
+struct pstate
+{
+    nbool mode;                        /* everything from here on is positional */
+    size_t pc; size_t pw_id;           /* number of positionals so far; identity of positional number g_w */
+    struct { nbool has; size_t id; nbool dirty; } opt[NITRO_K];
+    struct { size_t count; size_t w_id; nbool dirty; } mopt[NITRO_K];
+    struct { int given; nbool dirty; } tog[NITRO_K];
+};
+struct pstep { struct pstate s; nbool err; int cls; int advance; /* 1: the next token was consumed as this option's value */ };
+#define SP_VALUE(t) (OSTR_NAMELEN_V(t) == 0 || (t).b0 != '-')
+#define SP_DD(t) ((t).id == OSTR_ID_DD)
+#define SP_SHORT(t) (OSTR_NAMELEN_V(t) > 1 && (t).b0 == '-' && (t).b1 != '-')
+#define SP_NAMED(t) (OSTR_NAMELEN_V(t) > 2 && (t).b0 == '-' && (t).b1 == '-' && (t).b2 != '-')
+#define SP_HAS_VALUE(t) (SP_VALUE(t) || (t).eq != NITRO_NPOS)
+#define SP_LCOUNT(b, t) ((b).short_.b0 == g_letters[0] ? (t).lcount[0] : (b).short_.b0 == g_letters[1] ? (t).lcount[1] : (b).short_.b0 == g_letters[2] ? (t).lcount[2] : (t).lcount[3])
+#define SP_LETTER(b, t) ((b).short_.len != 0 && SP_SHORT(t) && !(OSTR_NAMELEN_V(t) > 2 && SP_HAS_VALUE(t)) && SP_LCOUNT(b, t) > 0)   /* the letter occurs in a short token (a bundle carrying =value names nothing) */
+#define SP_LONG(b, t) (!((b).short_.len != 0 && SP_SHORT(t)) && SP_NAMED(t) && (t).name_sub2_id == (b).name_.id)                       /* --<name> */
+#define SP_NAMES(b, t) (SP_LETTER(b, t) || SP_LONG(b, t))
+#define SP_NO(b, t) ((t).name_has_no && (t).name_sub5_id == (b).name_.id)                                                             /* --no-<name> */
+static inline struct pstate pstate_of_v(struct oparser p, nbool mode, struct ovec positionals)
+{
+    struct pstate s;
+    s.mode = mode; s.pc = positionals.count; s.pw_id = positionals.w_id;
+    for (int k = 0; k < NITRO_K; ++k)
+    {
+        s.opt[k].has = p.opts[k].value_has; s.opt[k].id = p.opts[k].value_.id; s.opt[k].dirty = p.opts[k].b.dirty_;
+        s.mopt[k].count = p.mopts[k].value_.count; s.mopt[k].w_id = p.mopts[k].value_.w_id; s.mopt[k].dirty = p.mopts[k].b.dirty_;
+        s.tog[k].given = p.toggles[k].given_; s.tog[k].dirty = p.toggles[k].b.dirty_;
+    }
+    return s;
+}
+static inline struct pstep pstep_spec_v(struct oparser p, struct pstate s0, struct ostr t, nbool has_next, struct ostr nxt)
+{
+    struct pstep r; r.s = s0; r.err = 0; r.cls = CLS_NONE; r.advance = 0;
+    if (s0.mode || SP_VALUE(t))
+    {   /* C12: value tokens, and every token after the first -- (or after the first positional in greedy mode) */
+        if (s0.pc == p.allowed_positionals_) { r.err = 1; return r; }                                  /* more positionals than accepted */
+        r.cls = CLS_POSITIONAL;
+        if (s0.pc == g_w) r.s.pw_id = t.id;                                                            /* verbatim, in order */
+        r.s.pc = s0.pc + 1;
+        if (p.greedy_positionals_) r.s.mode = 1;
+        return r;
+    }
+    if (SP_DD(t)) { r.cls = CLS_DOUBLE_DASH; r.s.mode = 1; return r; }
+    /* C01/C02: a value-taking option, by long name or by its letter alone */
+    int ko = -1, km = -1;
+    for (int k = NITRO_K - 1; k >= 0; --k) { if ((size_t)k < p.n_opts && SP_NAMES(p.opts[k].b, t)) ko = k; }
+    if (ko < 0) for (int k = NITRO_K - 1; k >= 0; --k) { if ((size_t)k < p.n_mopts && SP_NAMES(p.mopts[k].b, t)) km = k; }
+    if (ko >= 0 || km >= 0)
+    {
+        if (SP_SHORT(t) && OSTR_NAMELEN_V(t) > 2) { r.err = 1; return r; }                             /* a value-taking option's letter hidden inside a bundle */
+        size_t vid;
+        if (SP_HAS_VALUE(t)) vid = t.value_id;                                                         /* --name=value, -s=value: the text after the first '=' */
+        else
+        {   /* --name value, -s value: the next token, which must exist and must not look like an option */
+            if (!has_next || !SP_VALUE(nxt)) { r.err = 1; return r; }
+            vid = nxt.id; r.advance = 1;
+        }
+        r.cls = CLS_OPTION;
+        if (ko >= 0)
+        {
+            if (s0.opt[ko].has) { r.err = 1; return r; }                                               /* single-valued option given twice, in any mix of spellings */
+            r.s.opt[ko].has = 1; r.s.opt[ko].id = vid; r.s.opt[ko].dirty = 1;
+        }
+        else
+        {
+            if (s0.mopt[km].count == g_w) r.s.mopt[km].w_id = vid;                                     /* values keep command line order */
+            r.s.mopt[km].count = s0.mopt[km].count + 1; r.s.mopt[km].dirty = 1;
+        }
+        return r;
+    }
+    /* C11: toggles - long spelling, --no- spelling, or letters of a bundle in which EVERY letter is a declared toggle */
+    nbool any = 0; size_t letters = 0;
+    for (int k = 0; k < NITRO_K; ++k)
+    {
+        if ((size_t)k >= p.n_toggles) continue;
+        nbool pos = SP_NAMES(p.toggles[k].b, t), neg = SP_NO(p.toggles[k].b, t);
+        if (!pos && !neg) continue;
+        any = 1;
+        if (SP_HAS_VALUE(t)) { r.err = 1; continue; }                                                  /* =value on a toggle */
+        if (pos)
+        {
+            if (s0.tog[k].dirty && s0.tog[k].given == 0) { r.err = 1; continue; }                       /* --no-x earlier, x now */
+            r.s.tog[k].given = s0.tog[k].given + (SP_SHORT(t) ? (int)SP_LCOUNT(p.toggles[k].b, t) : 1); /* each long spelling and each occurrence of the letter adds one */
+            if (SP_SHORT(t)) letters += SP_LCOUNT(p.toggles[k].b, t);
+        }
+        else
+        {
+            if (!p.toggles[k].reversable_ || (s0.tog[k].dirty && s0.tog[k].given > 0)) { r.err = 1; continue; }
+            r.s.tog[k].given = 0;
+        }
+        r.s.tog[k].dirty = 1;
+    }
+    if (!any) { r.err = 1; return r; }                                                                 /* unknown name or letter: never silently ignored */
+    if (SP_SHORT(t) && letters != OSTR_NAMELEN_V(t) - 1) r.err = 1;                                     /* a letter of the bundle is no declared toggle */
+    r.cls = CLS_TOGGLE;
+    return r;
+}
+static inline nbool pstate_eq_v(struct pstate x, struct pstate y, struct oparser p)
+{
+    nbool e = (x.mode != 0) == (y.mode != 0) && x.pc == y.pc && (g_w >= x.pc || x.pw_id == y.pw_id);
+    for (int k = 0; k < NITRO_K; ++k)
+    {
+        if ((size_t)k < p.n_opts) e = e && (x.opt[k].has != 0) == (y.opt[k].has != 0) && (!x.opt[k].has || x.opt[k].id == y.opt[k].id) && (x.opt[k].dirty != 0) == (y.opt[k].dirty != 0);
+        if ((size_t)k < p.n_mopts) e = e && x.mopt[k].count == y.mopt[k].count && (g_w >= x.mopt[k].count || x.mopt[k].w_id == y.mopt[k].w_id) && (x.mopt[k].dirty != 0) == (y.mopt[k].dirty != 0);
+        if ((size_t)k < p.n_toggles) e = e && x.tog[k].given == y.tog[k].given && (x.tog[k].dirty != 0) == (y.tog[k].dirty != 0);
+    }
+    return e;
+}
+static inline nbool pstep_is_spec_v(struct pstep g, struct oparser p, nbool mode, struct ovec positionals, struct ostr t, nbool has_next, struct ostr nxt)
+{
+    struct pstep r = pstep_spec_v(p, pstate_of_v(p, mode, positionals), t, has_next, nxt);
+    return (g.err != 0) == (r.err != 0) && g.cls == r.cls && g.advance == r.advance && pstate_eq_v(g.s, r.s, p);
+}
+/* declarations are unambiguous, short names are in the letter table, toggle states are in range, and the token is outside the known-finding region */
+static inline nbool parse_decl_ok_v(struct oparser p)
+{
+    nbool ok = p.n_opts <= NITRO_K && p.n_mopts <= NITRO_K && p.n_toggles <= NITRO_K && LETTERS_WF;
+    for (int k = 0; k < NITRO_K; ++k)
+    {
+        ok = ok && ((size_t)k >= p.n_opts || (p.opts[k].b.short_.len <= 1 && (p.opts[k].b.short_.len == 0 || LETTER_SLOT(p.opts[k].b.short_.b0) < NITRO_NL)));
+        ok = ok && ((size_t)k >= p.n_mopts || (p.mopts[k].b.short_.len <= 1 && (p.mopts[k].b.short_.len == 0 || LETTER_SLOT(p.mopts[k].b.short_.b0) < NITRO_NL)));
+        ok = ok && ((size_t)k >= p.n_toggles || (p.toggles[k].b.short_.len <= 1 && (p.toggles[k].b.short_.len == 0 || LETTER_SLOT(p.toggles[k].b.short_.b0) < NITRO_NL)));
+    }
+    return ok;
+}
+static inline nbool parse_unambiguous_v(struct oparser p)
+{
+    /* one meaning per long name (what the declaration functions guarantee, C13) and per letter (what check_parser_consistency guarantees) */
+    size_t ids[3 * NITRO_K]; nbool used[3 * NITRO_K]; nbool ok = 1;
+    for (int k = 0; k < NITRO_K; ++k)
+    {
+        ids[k] = p.opts[k].b.name_.id; used[k] = (size_t)k < p.n_opts;
+        ids[NITRO_K + k] = p.mopts[k].b.name_.id; used[NITRO_K + k] = (size_t)k < p.n_mopts;
+        ids[2 * NITRO_K + k] = p.toggles[k].b.name_.id; used[2 * NITRO_K + k] = (size_t)k < p.n_toggles;
+    }
+    for (int x = 0; x < 3 * NITRO_K; ++x) for (int y = x + 1; y < 3 * NITRO_K; ++y) ok = ok && !(used[x] && used[y] && ids[x] == ids[y]);
+    return ok && !parser_dup_letters_v(p);
+}
+static inline nbool parse_state_ok_v(struct oparser p, struct ostr t)
+{
+    nbool ok = 1;
+    for (int k = 0; k < NITRO_K; ++k)
+    {
+        ok = ok && ((size_t)k >= p.n_toggles || (p.toggles[k].given_ >= 0 && p.toggles[k].given_ < (1 << 30)));
+        ok = ok && ((size_t)k >= p.n_mopts || p.mopts[k].value_.count < OSTR_MAXLEN);
+#if KF_toggle_named_no && !(NITRO_KF_REGION && defined(NITRO_KF_SEL_toggle_named_no))
+        ok = ok && ((size_t)k >= p.n_toggles || !(t.name_has_no && SP_NAMED(t) && t.name_sub2_id == p.toggles[k].b.name_.id));
+#endif
+    }
+    return ok;
+}
+
+/* parse(), part 1: consistency check and reset */
+extern nbool g_dup;             /* whether the declarations on entry share a letter (tied by a precondition) */
+void parser_parse_prologue(struct oparser *self, nbool *mode_ref, struct ovec *positionals_ref)
+__CPROVER_requires(nitro_exc == 0 && O_OBJ_OR_OK(parser_parse_prologue, self) && O_OBJ_OR_OK(parser_parse_prologue, mode_ref) && O_OBJ_OR_OK(parser_parse_prologue, positionals_ref))
+__CPROVER_requires(parse_decl_ok_v(*self) && g_oi < NITRO_K && (g_dup != 0) == (parser_dup_letters_v(*self) != 0))
+__CPROVER_assigns(PARSER_STATE, *mode_ref, *positionals_ref, nitro_exc)
+__CPROVER_ensures(nitro_exc == 0 || nitro_exc == EXC_PARSER_ERROR)
+__CPROVER_ensures((nitro_exc != 0) == (g_dup != 0))                                                          /*@ two_options_sharing_a_letter_refuse_to_parse */
+__CPROVER_ensures(nitro_exc == 0 ==> (!*mode_ref && positionals_ref->count == 0))                                          /*@ starts_outside_positional_mode_without_positionals */
+__CPROVER_ensures((nitro_exc == 0 && g_oi < self->n_opts) ==> (!self->opts[g_oi].value_has && !self->opts[g_oi].b.dirty_))   /*@ nothing_of_an_earlier_parse_survives */
+__CPROVER_ensures((nitro_exc == 0 && g_oi < self->n_mopts) ==> (self->mopts[g_oi].value_.count == 0 && !self->mopts[g_oi].b.dirty_))
+__CPROVER_ensures((nitro_exc == 0 && g_oi < self->n_toggles) ==> (self->toggles[g_oi].given_ == 0 && !self->toggles[g_oi].b.dirty_));
+
+/* exhaustive case distinction over the token (the last case is the complement of the others): one verification job per case */
+#define STEP_I (*it_ref)
+#define STEP_T (args->a[STEP_I].arg_)
+#define STEP_A ((*mode_ref) != 0 || SP_VALUE(STEP_T) || SP_DD(STEP_T))
+#define STEP_B ((self->n_opts > 0 && SP_NAMES(self->opts[0].b, STEP_T)) || (self->n_opts > 1 && SP_NAMES(self->opts[1].b, STEP_T)))
+#define STEP_C ((self->n_mopts > 0 && SP_NAMES(self->mopts[0].b, STEP_T)) || (self->n_mopts > 1 && SP_NAMES(self->mopts[1].b, STEP_T)))
+#ifndef NITRO_CASE_parser_parse_step
+#define STEP_CASE 1
+#elif NITRO_CASE_parser_parse_step == 0
+#define STEP_CASE (STEP_A)
+#elif NITRO_CASE_parser_parse_step == 1
+#define STEP_CASE (!STEP_A && STEP_B)
+#elif NITRO_CASE_parser_parse_step == 2
+#define STEP_CASE (!STEP_A && !STEP_B && STEP_C)
+#else
+#define STEP_CASE (!STEP_A && !STEP_B && !STEP_C)
+#endif
+/* parse(), part 2: one execution of the body of the token loop (the induction step over the argument vector) */
+extern struct pstep g_step;     /* the reference result for the state and token of the call under verification (tied by a precondition) */
+int parser_parse_step(struct oparser *self, const struct oargs *args, size_t *it_ref, nbool *mode_ref, struct ovec *positionals_ref)
+__CPROVER_requires(nitro_exc == 0 && __CPROVER_rw_ok(self, sizeof(*self)) && __CPROVER_r_ok(args, sizeof(*args)) && __CPROVER_rw_ok(it_ref, sizeof(*it_ref)) && __CPROVER_rw_ok(mode_ref, sizeof(*mode_ref)) && __CPROVER_rw_ok(positionals_ref, sizeof(*positionals_ref)))
+__CPROVER_requires(args->n <= NITRO_NARGS && STEP_I == 0 && STEP_I < args->n && g_oi < NITRO_K && parse_decl_ok_v(*self) && parse_unambiguous_v(*self) && parse_state_ok_v(*self, STEP_T))
+__CPROVER_requires(ui_wf_v(args->a[STEP_I]) && STEP_T.len < (1 << 20) && (STEP_I + 1 == args->n || ui_wf_v(args->a[STEP_I + 1])) && positionals_ref->count < OSTR_MAXLEN && positionals_ref->count <= self->allowed_positionals_)
+__CPROVER_requires(STEP_CASE)
+__CPROVER_requires(pstep_is_spec_v(g_step, *self, *mode_ref, *positionals_ref, STEP_T, STEP_I + 1 != args->n, args->a[STEP_I + 1 != args->n ? STEP_I + 1 : STEP_I].arg_))
+__CPROVER_assigns(PARSER_STATE, *it_ref, *mode_ref, *positionals_ref, nitro_exc, g_at_next, g_at_hits, g_at_other)
+__CPROVER_ensures(nitro_exc == 0 || nitro_exc == EXC_PARSING_ERROR)                                                         /*@ bad_user_input_ends_in_the_user_input_error_only */
+__CPROVER_ensures((nitro_exc != 0) == (g_step.err != 0))                                                                   /*@ rejected_exactly_under_the_documented_conditions */
+__CPROVER_ensures(nitro_exc == 0 ==> pstate_eq_v(pstate_of_v(*self, *mode_ref, *positionals_ref), g_step.s, *self))         /*@ the_token_has_exactly_its_documented_effect */
+__CPROVER_ensures(nitro_exc == 0 ==> g_step.cls != CLS_NONE)                                                               /*@ every_token_is_accounted_for */
+__CPROVER_ensures(nitro_exc == 0 ==> *it_ref == __CPROVER_old(*it_ref) + (size_t)g_step.advance)                                              /*@ consumes_the_next_token_only_as_an_option_value */
+__CPROVER_ensures(nitro_exc == 0 ==> positionals_ref->count <= self->allowed_positionals_);                                 /*@ never_more_positionals_than_accepted */
+
+/* parse(), part 3: value sources are ranked (C03), `provided` is computed, the result object is built */
+void parser_parse_epilogue(struct oarguments *ret, struct oparser *self, struct ovec *positionals_ref)
+__CPROVER_requires(nitro_exc == 0 && O_OBJ_OR_OK(parser_parse_epilogue, ret) && O_OBJ_OR_OK(parser_parse_epilogue, self) && O_OBJ_OR_OK(parser_parse_epilogue, positionals_ref))
+__CPROVER_requires(parse_decl_ok_v(*self) && g_oi < NITRO_K && OPT_CHECK_PRE(0) && OPT_CHECK_PRE(1) && MOPT_CHECK_PRE(0) && MOPT_CHECK_PRE(1) && g_pieces_total <= OSTR_MAXLEN)
+__CPROVER_assigns(*ret, PARSER_STATE, nitro_exc, g_env_name)
+__CPROVER_ensures(nitro_exc == 0 || nitro_exc == EXC_PARSING_ERROR)
+__CPROVER_ensures((nitro_exc != 0) == (OPT_RAISES(0) || OPT_RAISES(1) || MOPT_RAISES(0) || MOPT_RAISES(1) || TOG_RAISES(0) || TOG_RAISES(1)))   /*@ fails_iff_a_required_option_has_no_source_or_an_environment_word_is_unparsable */
+__CPROVER_ensures(nitro_exc == 0 ==> (OPT_CHECKED(0) && OPT_CHECKED(1) && MOPT_CHECKED(0) && MOPT_CHECKED(1) && TOG_CHECKED(0) && TOG_CHECKED(1)))   /*@ sources_ranked_command_line_environment_default */
+__CPROVER_ensures(nitro_exc == 0 ==> (ret->positionals_.count == positionals_ref->count && ret->positionals_.w_id == positionals_ref->w_id))      /*@ positionals_reported_verbatim_in_order */
+__CPROVER_ensures(nitro_exc == 0 ==> ((ret->provided_.w_in != 0) == ((self->n_opts > 0 && self->opts[0].b.dirty_ && self->opts[0].b.name_.id == g_pn) || (self->n_opts > 1 && self->opts[1].b.dirty_ && self->opts[1].b.name_.id == g_pn) ||
+      (self->n_mopts > 0 && self->mopts[0].b.dirty_ && self->mopts[0].b.name_.id == g_pn) || (self->n_mopts > 1 && self->mopts[1].b.dirty_ && self->mopts[1].b.name_.id == g_pn) ||
+      (self->n_toggles > 0 && self->toggles[0].b.dirty_ && self->toggles[0].b.name_.id == g_pn) || (self->n_toggles > 1 && self->toggles[1].b.dirty_ && self->toggles[1].b.name_.id == g_pn))));   /*@ provided_iff_value_came_from_command_line_or_environment */
+/* ---- parse(argc, argv) ---- */
+extern nbool g_parse_called; extern struct oargs g_parse_args;
+/* parse(vector): verified as prologue / step / epilogue; here only what it was called with is recorded */
+void parser_parse(struct oarguments *ret, struct oparser *self, const struct oargs *args)
+__CPROVER_requires(nitro_exc == 0 && __CPROVER_rw_ok(ret, sizeof(*ret)) && __CPROVER_r_ok(args, sizeof(*args)))
+__CPROVER_assigns(*ret, nitro_exc, g_parse_called, g_parse_args)
+__CPROVER_ensures(g_parse_called && g_parse_args.n == args->n && g_parse_args.a[0].arg_.id == args->a[0].arg_.id && g_parse_args.a[1].arg_.id == args->a[1].arg_.id && g_parse_args.a[2].arg_.id == args->a[2].arg_.id)
+__CPROVER_ensures(nitro_exc == 0 || nitro_exc == EXC_PARSING_ERROR || nitro_exc == EXC_PARSER_ERROR);
+#define AV_IN(i) ((i) < argc)
+#define AV_M(i) (AV_IN(i) && T_MALFORMED(&argv[i]))
+#define AV_D(i) (AV_IN(i) && T_DD(&argv[i]))
+#define AV_V(i) (AV_IN(i) && T_VALUE(&argv[i]))
+#define AV_G (self->greedy_positionals_ != 0)
+#define AV_BAD_ANY (AV_M(1) || AV_M(2) || AV_M(3))
+/* the first malformed dash token stands ahead of every -- and (in greedy mode) of every value token: C04 wants the user-input error */
+#define AV_MUST_RAISE (AV_M(1) || (!AV_M(1) && AV_M(2) && !AV_D(1) && !(AV_G && AV_V(1))) || (!AV_M(1) && !AV_M(2) && AV_M(3) && !(AV_D(1) || AV_D(2)) && !(AV_G && (AV_V(1) || AV_V(2)))))
+/* the first malformed dash token stands after a --: C12 wants it to be a positional.  KNOWN FINDING malformed_dash_in_positional_part */
+#define AV_AFTER_DD ((!AV_M(1) && AV_M(2) && AV_D(1)) || (!AV_M(1) && !AV_M(2) && AV_M(3) && (AV_D(1) || AV_D(2))))
+#if NITRO_KF_REGION && defined(NITRO_KF_SEL_malformed_dash_in_positional_part)
+#define AV_KF_PRE AV_AFTER_DD
+#else
+#define AV_KF_PRE (!KF_malformed_dash_in_positional_part || !AV_AFTER_DD)
+#endif
+void parser_parse_argv(struct oarguments *ret, struct oparser *self, int argc, const struct ostr *argv)
+__CPROVER_requires(nitro_exc == 0 && O_OBJ_OR_OK(parser_parse_argv, ret) && O_OBJ_OR_OK(parser_parse_argv, self) && argc <= NITRO_NARGS + 1 && __CPROVER_r_ok(argv, (NITRO_NARGS + 1) * sizeof(struct ostr)))
+__CPROVER_requires(ostr_wf_v(argv[1]) && ostr_wf_v(argv[2]) && ostr_wf_v(argv[3]) && !g_parse_called && AV_KF_PRE)
+__CPROVER_assigns(*ret, nitro_exc, g_parse_called, g_parse_args)
+__CPROVER_ensures(nitro_exc == 0 || nitro_exc == EXC_PARSING_ERROR || nitro_exc == EXC_PARSER_ERROR)
+__CPROVER_ensures(AV_MUST_RAISE ==> (nitro_exc == EXC_PARSING_ERROR && !g_parse_called))                                        /*@ malformed_dash_token_ahead_of_the_positional_part_is_the_user_input_error */
+__CPROVER_ensures(AV_AFTER_DD ==> g_parse_called)                                                                             /*@ a_token_after_the_first_double_dash_is_never_rejected_for_its_looks */
+__CPROVER_ensures(!AV_BAD_ANY ==> (g_parse_called && g_parse_args.n == (size_t)(argc > 1 ? argc - 1 : 0)))                    /*@ every_word_but_the_program_name_is_parsed */
+__CPROVER_ensures((!AV_BAD_ANY && g_w < g_parse_args.n && g_w < NITRO_NARGS) ==> g_parse_args.a[g_w < NITRO_NARGS ? g_w : 0].arg_.id == argv[(g_w < NITRO_NARGS ? g_w : 0) + 1].id);   /*@ verbatim_and_in_order */
+
+/* ======================= declarations (C13) ======================= */
+/* short_name(s): exactly one character, and never changed once set */
+#define SN_REJECT ((short_name->len != 1) || (__CPROVER_old(self->short_.len) != 0 && __CPROVER_old(self->short_.id) != short_name->id))
+struct obase *crtp_short_name_set(struct obase *self, const struct ostr *short_name)
+__CPROVER_requires(nitro_exc == 0 && O_OBJ_OR_OK(crtp_short_name_set, self) && O_OBJ_OR_ROK(crtp_short_name_set, short_name))
+__CPROVER_assigns(self->short_, nitro_exc)
+__CPROVER_ensures(nitro_exc == 0 || nitro_exc == EXC_PARSER_ERROR)
+__CPROVER_ensures(SN_REJECT == (nitro_exc != 0))                                                                            /*@ rejected_iff_not_one_character_or_a_different_letter_is_already_set */
+__CPROVER_ensures(nitro_exc != 0 ==> (self->short_.id == __CPROVER_old(self->short_.id) && self->short_.len == __CPROVER_old(self->short_.len)))   /*@ a_rejected_call_changes_nothing */
+__CPROVER_ensures(nitro_exc == 0 ==> (self->short_.id == short_name->id && self->short_.len == 1 && self->short_.b0 == short_name->b0 && __CPROVER_return_value == self));
+
+/* std::map<std::string, T> seen through ONE key - the name being declared: does the map hold it, and the object mapped to it */
+struct omapk { nbool has; struct obase elem; };
+struct oemplaced { struct obase *first; nbool second; };
+extern const struct obase *g_ord_obj;                        /* witness: an option object whose entries in order_ are counted */
+struct oorder { size_t count; const struct obase *last; size_t w_cnt; };     /* std::vector<base*> order_ */
+#ifndef NITRO_G
+#define NITRO_G 2          /* groups of a parser in the verification of the declaration functions: the group declared into and one other (bound) */
+#endif
+struct oparser2;
+struct ogroup { const struct oparser2 *parser_; struct omapk options_, multi_options_, toggles_; struct oorder order_; };
+struct oparser2 { size_t n_groups; struct ogroup groups[NITRO_G]; };         /* std::map<std::string, group> groups_ */
+extern nbool g_any;                                          /* whether the name is declared anywhere in g_holder on entry (tied by a precondition) */
+extern const struct oparser2 *g_holder;                      /* the parser whose groups_ holds the group being declared into */
+static inline void omapk_init(struct omapk *m) { m->has = 0; }
+static inline size_t omapk_count(const struct omapk *m, const struct ostr *name) { return m->has ? 1 : 0; }
+static inline void omapk_merge(struct omapk *tmp, const struct omapk *from) { if (from->has) tmp->has = 1; }     /* for (e : from) tmp.emplace(e.first, &e.second) */
+static inline struct oemplaced omapk_emplace(struct omapk *m, const struct ostr *name, const struct ostr *description)
+{
+    struct oemplaced r; r.first = &m->elem; r.second = !m->has;
+    if (!m->has) { m->has = 1; m->elem.name_ = *name; m->elem.short_.len = 0; m->elem.env_.len = 0; m->elem.dirty_ = 0; }    /* T(name, description) */
+    return r;
+}
+static inline void oorder_push_back(struct oorder *o, const struct obase *e) { if (o->count != ~(size_t)0) o->count = o->count + 1; o->last = e; if (e == g_ord_obj && o->w_cnt != ~(size_t)0) o->w_cnt = o->w_cnt + 1; }
+#define GRP_HAS(P, g) ((P)->n_groups > (g) && ((P)->groups[g].options_.has || (P)->groups[g].multi_options_.has || (P)->groups[g].toggles_.has))
+#define GRP_CNT(P, g) ((P)->n_groups > (g) ? ((P)->groups[g].options_.has ? 1 : 0) + ((P)->groups[g].multi_options_.has ? 1 : 0) + ((P)->groups[g].toggles_.has ? 1 : 0) : 0)
+#define NAME_ANY(P) (GRP_HAS(P, 0) || GRP_HAS(P, 1))
+#define NAME_UNIQUE(P) (GRP_CNT(P, 0) + GRP_CNT(P, 1) <= 1)                  /* the long name denotes at most one option across all groups and kinds */
+#define GA_CONTRACT(kind, member) \
+void parser_get_all_##kind(struct omapk *tmp, const struct oparser2 *self) \
+__CPROVER_requires(nitro_exc == 0 && __CPROVER_rw_ok(tmp, sizeof(*tmp)) && O_OBJ_OR_ROK(parser_get_all_##kind, self) && self->n_groups <= NITRO_G) \
+__CPROVER_assigns(*tmp) \
+__CPROVER_ensures(nitro_exc == 0 && (tmp->has != 0) == ((self->n_groups > 0 && self->groups[0].member.has) || (self->n_groups > 1 && self->groups[1].member.has)))
+GA_CONTRACT(options, options_);
+GA_CONTRACT(multi_options, multi_options_);
+GA_CONTRACT(toggles, toggles_);
+nbool parser_has_option_with_name(const struct oparser2 *self, const struct ostr *name)
+__CPROVER_requires(nitro_exc == 0 && O_OBJ_OR_ROK(parser_has_option_with_name, self) && self->n_groups <= NITRO_G)
+__CPROVER_assigns()
+__CPROVER_ensures(nitro_exc == 0 && (__CPROVER_return_value != 0) == NAME_ANY(self));                                       /*@ true_iff_any_group_holds_the_name_in_any_kind */
+
+/* KNOWN FINDING parser_move_stale_backref: a group names its parser by reference; after the parser object has been moved, the groups in the
+ * new object still name the moved-from one, whose groups_ is empty: re-declarations are no longer seen */
+#if NITRO_KF_REGION && defined(NITRO_KF_SEL_parser_move_stale_backref)
+#define GRP_KF_PRE (self->parser_ != g_holder)
+#else
+#define GRP_KF_PRE (!KF_parser_move_stale_backref || self->parser_ == g_holder)
+#endif
+#define GRP_PRE(fn) (nitro_exc == 0 && __CPROVER_r_ok(g_holder, sizeof(*g_holder)) && g_holder->n_groups <= NITRO_G && \
+    ((self == &g_holder->groups[0] && g_holder->n_groups > 0) || (self == &g_holder->groups[1] && g_holder->n_groups > 1)) && __CPROVER_rw_ok(self, sizeof(*self)) && \
+    __CPROVER_r_ok(self->parser_, sizeof(*self->parser_)) && self->parser_->n_groups <= NITRO_G && __CPROVER_r_ok(name, sizeof(*name)) && __CPROVER_r_ok(description, sizeof(*description)) && \
+    NAME_UNIQUE(g_holder) && (g_any != 0) == NAME_ANY(g_holder) && GRP_KF_PRE)
+#define GRP_DECL_CONTRACT(fn, member) \
+struct obase *group_##fn(struct ogroup *self, const struct ostr *name, const struct ostr *description) \
+__CPROVER_requires(GRP_PRE(group_##fn)) \
+__CPROVER_assigns(self->member, self->order_, nitro_exc) \
+__CPROVER_ensures(nitro_exc == 0 || nitro_exc == EXC_PARSER_ERROR) \
+__CPROVER_ensures(NAME_UNIQUE(g_holder))                                                       /*@ one_meaning_per_long_name_across_groups_and_kinds */ \
+__CPROVER_ensures(((g_any != 0) && !__CPROVER_old(self->member.has)) ==> (nitro_exc == EXC_PARSER_ERROR && !self->member.has && self->order_.count == __CPROVER_old(self->order_.count)))   /*@ any_other_redeclaration_is_a_developer_error */ \
+__CPROVER_ensures(__CPROVER_old(self->member.has) ==> (nitro_exc == 0 && __CPROVER_return_value == &self->member.elem && self->member.has && self->member.elem.name_.id == __CPROVER_old(self->member.elem.name_.id) && \
+                  self->order_.count == __CPROVER_old(self->order_.count) && self->order_.w_cnt == __CPROVER_old(self->order_.w_cnt)))   /*@ same_name_same_kind_same_group_returns_the_identical_object */ \
+__CPROVER_ensures(!(g_any != 0) ==> (nitro_exc == 0 && __CPROVER_return_value == &self->member.elem && self->member.has && self->member.elem.name_.id == name->id && self->member.elem.short_.len == 0 && \
+                  (__CPROVER_old(self->order_.count) != ~(size_t)0 ==> self->order_.count == __CPROVER_old(self->order_.count) + 1) && self->order_.last == &self->member.elem))   /*@ a_new_name_is_declared_and_listed_last */ \
+__CPROVER_ensures((!(g_any != 0) && g_ord_obj == &self->member.elem && __CPROVER_old(self->order_.w_cnt) == 0) ==> self->order_.w_cnt == 1)   /*@ listed_exactly_once */
+GRP_DECL_CONTRACT(option, options_);
+GRP_DECL_CONTRACT(multi_option, multi_options_);
+GRP_DECL_CONTRACT(toggle, toggles_);
+
+/* ---- arguments: positionals by index ---- */
+/* the implicit int -> std::size_t conversion of the argument of at(): modular, well defined ([conv.integral]) - spelled without a cast so that
+ * the conversion check of the verifier is not raised on defined behaviour */
+static inline size_t nitro_int_to_size(int i) { return i >= 0 ? (size_t)i : ~(size_t)0 - (size_t)(-((long)i + 1)); }
+/* std::vector::at(k): the position itself, std::out_of_range when k >= size() */
+size_t ovec_at(const struct ovec *v, size_t k)
+__CPROVER_requires(nitro_exc == 0 && __CPROVER_r_ok(v, sizeof(*v)))
+__CPROVER_assigns(nitro_exc)
+__CPROVER_ensures((nitro_exc != 0) == (k >= v->count) && (nitro_exc == 0 || nitro_exc == EXC_STD))
+__CPROVER_ensures(nitro_exc == 0 ==> __CPROVER_return_value == k);
+#define ARGS_N (self->positionals_.count)
+size_t args_get_int(const struct oarguments *self, int i)
+__CPROVER_requires(nitro_exc == 0 && O_OBJ_OR_ROK(args_get_int, self) && ARGS_N <= 0x7fffffff)       /* "if you ever manage to have more than 2^31 positionals, I owe you a beer" */
+__CPROVER_assigns(nitro_exc)
+__CPROVER_ensures((i >= 0 && (size_t)i < ARGS_N) ==> (nitro_exc == 0 && __CPROVER_return_value == (size_t)i))                       /*@ index_k_is_the_kth_positional */
+__CPROVER_ensures((i < 0 && (size_t)(-(long)i) <= ARGS_N) ==> (nitro_exc == 0 && __CPROVER_return_value == ARGS_N - (size_t)(-(long)i)))   /*@ index_minus_k_is_the_kth_positional_from_the_end */
+__CPROVER_ensures(((i >= 0 && (size_t)i >= ARGS_N) || (i < 0 && (size_t)(-(long)i) > ARGS_N)) ==> nitro_exc == EXC_STD);                /*@ anything_else_is_out_of_range_never_another_element */
+size_t args_index(const struct oarguments *self, int i)
+__CPROVER_requires(nitro_exc == 0 && O_OBJ_OR_ROK(args_index, self) && ARGS_N <= 0x7fffffff)
+__CPROVER_assigns(nitro_exc)
+__CPROVER_ensures((i >= 0 && (size_t)i < ARGS_N) ==> (nitro_exc == 0 && __CPROVER_return_value == (size_t)i))
+__CPROVER_ensures((i < 0 && (size_t)(-(long)i) <= ARGS_N) ==> (nitro_exc == 0 && __CPROVER_return_value == ARGS_N - (size_t)(-(long)i)))   /*@ index_minus_k_is_the_kth_positional_from_the_end */
+__CPROVER_ensures(((i >= 0 && (size_t)i >= ARGS_N) || (i < 0 && (size_t)(-(long)i) > ARGS_N)) ==> nitro_exc == EXC_STD);
 #pragma CPROVER check pop
 #endif
